@@ -175,7 +175,10 @@ def main(argv):
         return 2
     boot.setup_paths()
     mod = importlib.import_module("aomon.checks." + prop.lower())
-    seed = int(os.environ.get("VERIF_SEED", "0"))
+    try:
+        seed = abs(int(os.environ.get("VERIF_SEED", "0") or "0")) % (2 ** 63)
+    except ValueError:
+        seed = 0
 
     if argv[1] == "--replay":
         with open(argv[2]) as f:
